@@ -1364,6 +1364,25 @@ func geneFacts(repo string) (string, error) {
 		return "", err
 	}
 	var bounds []string
+	// package-level integer constants with a literal value (a bound may be written `n < maxDepth`)
+	consts := map[string]*ast.BasicLit{}
+	for _, d := range ff.Decls {
+		gd, ok := d.(*ast.GenDecl)
+		if !ok || gd.Tok != token.CONST {
+			continue
+		}
+		for _, sp := range gd.Specs {
+			vs, ok := sp.(*ast.ValueSpec)
+			if !ok || len(vs.Names) != len(vs.Values) {
+				continue
+			}
+			for i, nm := range vs.Names {
+				if bl, ok := vs.Values[i].(*ast.BasicLit); ok && bl.Kind == token.INT {
+					consts[nm.Name] = bl
+				}
+			}
+		}
+	}
 	want := map[string]bool{"BasePositionOf": true, "PositionWithin": true, "BaseOrientationOf": true, "OrientationWithin": true}
 	for _, d := range ff.Decls {
 		fd, ok := d.(*ast.FuncDecl)
@@ -1382,6 +1401,9 @@ func geneFacts(repo string) (string, error) {
 				lit, ok2 = be.Y, true
 			}
 			bl, ok3 := lit.(*ast.BasicLit)
+			if id, isID := lit.(*ast.Ident); isID && consts[id.Name] != nil {
+				bl, ok3 = consts[id.Name], true
+			}
 			if !ok || !ok2 || !ok3 || be.Op != token.LSS || bl.Kind != token.INT {
 				ferr = fmt.Errorf("%s: unrecognised loop condition at %s", fd.Name.Name, fset.Position(fs.Pos()))
 				return true
